@@ -15,6 +15,14 @@
 //
 // Oracle (the statement's own): FindFeatures(q) returns exactly the indexed
 // features f of the world (EachFeature) for which q.Matches(f, w), each once.
+//
+// Every exact query is also asked wrapped in Typed (what FindPoints / FindPaths
+// / FindAreas / FindRelations do) and intersected with a tag query, which
+// positions the spatial iterator with Advance instead of Next. The filter
+// worlds of filter.go enumerate, ahead of these scenes, what the candidates at
+// an Advance target can be: every short sequence of true matches and
+// covering-only candidates (runs of 1, 2, 3 before / between / after matches),
+// every tagging, for every query kind, in Typed / Intersection / Union forms.
 package main
 
 import (
@@ -274,24 +282,22 @@ type caseRef struct {
 func main() {
 	kit.Main(&kit.Check{
 		ID: "C04", Level: "exploration",
-		Rule: "every (anchor scene, world implementation, query) of the menus in checks/c04/menu.go; one case = one query against one world, evaluated against every feature of the world (Evals = features). Non-trivial = the brute-force result is non-empty or FindFeatures returned something; distinct by (scene, world, query). Oracle: multiset of IDs returned by FindFeatures(q) == {f in EachFeature(w) : indexed(f) and q.Matches(f, w)}, each once (MightIntersect, whose Matches is constantly true, is only required to be duplicate-free, within the indexed features, and a superset of the exact cap query's matches).",
+		Rule: "(A) filter worlds (checks/c04/filter.go): one case = one world (a slot sequence as a one-site basic / basic-mutable / overlay world, or 20 consecutive sequences as the sites of one compact world) x slot type x without/with sentinels, simplest-first by sequence length; inside a case every spatial query of every site in every form is one evaluation (Evals), non-trivial (Distinct) when the reference or the returned result is non-empty. Oracle: FindFeatures(form) returns exactly, each once, the features f of EachFeature(w) for which the form holds as set algebra: the spatial query q -> q.Matches(f, w) (the query's own test), #t=a / #e=y -> the tags the harness itself gave f, Typed[T] -> type(f) = T and the inner form, Intersection -> both operands, Union -> either. Per query the slots are classified M / R (covering-only candidate: q.Matches false, S2 covering MaxLevel 16 MaxCells 5 of the feature meets that of the query region) / F only to report which runs of consecutive covering-only candidates occurred (outcomes fw:consecutive-covering-only-candidates:len<k>:<position>, fw:slots-as-designed:<family>). (B) every (anchor scene, world implementation, query) of the menus in checks/c04/menu.go; one case = one query against one world, evaluated against every feature of the world (Evals = features + wrapped forms). Non-trivial = the brute-force result is non-empty or FindFeatures returned something; distinct by (scene, world, query). Oracle: multiset of IDs returned by FindFeatures(q) == {f in EachFeature(w) : indexed(f) and q.Matches(f, w)}, each once (MightIntersect, whose Matches is constantly true, is only required to be duplicate-free, within the indexed features, and a superset of the exact cap query's matches); every exact q also as Typed[T](q) for T in point/path/area/relation and as Intersection with #menu=path in both operand orders, each required to return exactly the brute-force matches of q of that type, once (a match the bare FindFeatures(q) already misses is reported by the bare query only).",
 		Assumptions: []string{
 			"indexed = every feature except points carrying no tag besides their location (ingest.TokensForFeature gives those no tokens)",
 			"features that the E7 rounding of the compact encoding would collapse or move (raw S2 positions, leaf-cell-sized and face-sized polygons given in full precision) are not given to the compact world; the compact world gets the E7 variants",
 			"the brute-force side evaluates q.Matches on w.FindFeatureByID(id) for every id reported by EachFeature",
+			"filter worlds: in a compact world of 20 sites the other sites' features are, for a site's queries, features outside every covering (some of them tagged #t=a, all tagged #e=y); compact builds cost ~0.1 s of buffer clearing each, hence the grouping",
+			"Typed.Matches only tests the type and Intersection / Union.Matches combine operand Matches, so the reference for the wrapped forms is the harness's own set algebra over the spatial query's Matches, not the wrapper's Matches",
 		},
 		QuickDeadline: 200e9, ThoroughDeadline: 1500e9, CaseTimeout: 300e9,
 		Build: func(tier string) (kit.Space, string) {
 			as := anchors(tier)
 			kinds := worldKinds
 			// filter worlds first (tiny worlds; simplest-first by pattern length)
-			fwAnchors := []anchor{as[0]}
-			geos := make([]*fwGeo, len(fwAnchors))
-			for i, a := range fwAnchors {
-				geos[i] = newFwGeo(a)
-			}
+			geos := fwSiteGeos(as[0])
 			fws := fwCases(tier)
-			nfw := int64(len(fws)) * int64(len(geos))
+			nfw := int64(len(fws))
 			scenes := make([]*scene, len(as))
 			qs := make([][]qspec, len(as))
 			var cases []caseRef
@@ -307,17 +313,18 @@ func main() {
 				}
 			}
 			nq := 0
-			for _, fq := range geos[0].queries(geos[0].scene([]int{0}, fPoint, true), fPoint) {
+			for _, fq := range fwScenes(geos, [][]int{{0}}, fPoint, true).sites[0].queries(fPoint, nil) {
 				if fq.build != nil {
 					nq++
 				}
 			}
-			bound := fmt.Sprintf("(A) filter worlds: every sequence of 1..%d slots over {M-,Ma,R-,Ra,Fa} (M = true match at the hot spot, R = in the level-16 covering cell of every query but 30-80 m outside every exact shape, F = 1 km away; a = tagged #t=a) = %d sequences x slot type {point,path,area} x {no sentinels, one sentinel match of every feature type + relation + collection in a later namespace} x %d world kinds %v at anchor %s = %d worlds; per world %d spatial queries (cap 20 m, level-20 cell, point, polyline, multipolygon of 1 and 2 polygons, intersects-feature point/path/area sentinel) x %d forms: bare, Typed x {point,path,area,relation,collection}, Intersection/Union with #t=a and with #e=y (all features) in both operand orders, Typed x {point,path,area} over those, Intersection/Union of Typed with #t=a in both orders, Intersection (both orders) and Union with a second cap holding R slots 0..2. (B) %d anchor cells (level 16; thorough also levels 8, 12, 20, 24) x %d world kinds x ~%d queries per scene; ~%d features per scene; cap radii %v m; cell levels 0,1,5,16,30 (+2,10,15,17,24 thorough); every exact query also as Typed x {point,path,area,relation} and as Intersection/Union with the tag query #menu=path in both operand orders",
-				fwMaxLen(tier), len(fws)/(len(fwSlotTypes)*2*len(kinds)), len(kinds), kinds, fwAnchors[0].name, nfw, nq, len(fwWrapperList),
-				len(as), len(kinds), len(qs[0]), nf/len(as), capRadiiM)
+			np := len(fwPatterns(tier))
+			bound := fmt.Sprintf("(A) filter worlds at anchor %s: every sequence of 1..%d slots over the first %d of {M-,Ma,R-,Ra,Fa} (M = true match of every query at the hot spot, R = inside the level-16 covering cell of every query but 30-80 m outside every exact shape, F = 1 km away; a = tagged #t=a; slots have consecutive IDs of one type) = %d sequences x slot type {point,path,area} x {no sentinels, one sentinel match of every geometry type + relation + collection in a later namespace}; each as a one-site world of kinds %v, and in compact worlds of %d sites (consecutive sequences, sites 40 cells apart) = %d worlds; per site %d spatial queries (cap 20 m, level-20 cell, point, polyline, multipolygon of 1 and of 2 polygons, intersects-feature point/path/area sentinel; the last three only with sentinels) x %d forms (quick: bare, Typed x {point,path,area,relation,collection}, Intersection with #t=a and with #e=y (all features) in both operand orders, Union with #t=a in both orders, Typed[slot type] over those six, Intersection of Typed[slot type] with #t=a in both orders, Intersection in both orders with a second cap holding R slots 0..2; thorough: also Union with #e=y, nesting with all three geometry types, Union of Typed with #t=a, Union with the second cap). (B) %d anchor cells (level 16; thorough also levels 8, 12, 20, 24) x %d world kinds %v x ~%d queries per scene; ~%d features per scene; cap radii %v m; cell levels 0,1,5,16,30 (+2,10,15,17,24 thorough); every exact query also as Typed x {point,path,area,relation} and as Intersection with the tag query #menu=path in both operand orders",
+				as[0].name, fwMaxLen(tier), fwAlphabetSize(tier), np, fwTinyKinds, fwGroup, nfw, nq, len(fwWrappers(tier, fPoint)),
+				len(as), len(kinds), kinds, len(qs[0]), nf/len(as), capRadiiM)
 			return kit.FuncSpace{N: nfw + int64(len(cases)), F: func(i int64) kit.Result {
 				if i < nfw {
-					return runFilterCase(geos[i%int64(len(geos))], &fws[i/int64(len(geos))], i)
+					return runFilterCase(geos, tier, &fws[i], i)
 				}
 				c := cases[i-nfw]
 				return runCase(scenes[c.scene], c.kind, &qs[c.scene][c.q], i)
@@ -418,6 +425,74 @@ func runCase(s *scene, kind string, q *qspec, idx int64) kit.Result {
 		case !expected[id] && q.weakOf != nil:
 			if _, ok := indexed[id]; !ok {
 				viol["invented:unindexed-feature:"+q.family] = append(viol["invented:unindexed-feature:"+q.family], "unexpected "+name(id))
+			}
+		}
+	}
+	// The same query positioned with Advance: wrapped in Typed (as FindPoints,
+	// FindPaths, FindAreas, FindRelations do) and intersected with a tag query.
+	// Expected: the brute-force matches of the bare query restricted to the type
+	// (every path of a scene, and nothing else, carries #menu=path).
+	if q.weakOf == nil {
+		menuPath := b6.Tagged{Key: "#menu", Value: b6.NewStringExpression("path")}
+		type wrapped struct {
+			shape, name string
+			q           b6.Query
+			t           b6.FeatureType
+		}
+		ws := []wrapped{
+			{"and(tag," + q.family + ")", "Intersection(#menu=path, q)", b6.Intersection{menuPath, query}, b6.FeatureTypePath},
+			{"and(" + q.family + ",tag)", "Intersection(q, #menu=path)", b6.Intersection{query, menuPath}, b6.FeatureTypePath},
+		}
+		for _, t := range []b6.FeatureType{b6.FeatureTypePoint, b6.FeatureTypePath, b6.FeatureTypeArea, b6.FeatureTypeRelation} {
+			ws = append(ws, wrapped{"typed(" + q.family + ")", "Typed[" + t.String() + "](q)", b6.Typed{Type: t, Query: query}, t})
+		}
+		for _, wq := range ws {
+			wgot := map[b6.FeatureID]int{}
+			wn := 0
+			it := b.w.FindFeatures(wq.q)
+			for it.Next() {
+				wgot[it.FeatureID()]++
+				wn++
+				if wn > 10*len(b.feats)+10 {
+					r.Violate("runaway-iterator:"+wq.shape, "%s: %s returned more than %d results", desc, wq.name, wn)
+					break
+				}
+			}
+			r.Evals++
+			var wids []b6.FeatureID
+			for id := range expected {
+				if id.Type == wq.t {
+					wids = append(wids, id)
+				}
+			}
+			for id := range wgot {
+				if !(expected[id] && id.Type == wq.t) {
+					wids = append(wids, id)
+				}
+			}
+			sort.Slice(wids, func(i, j int) bool { return wids[i].Less(wids[j]) })
+			for _, id := range wids {
+				want := expected[id] && id.Type == wq.t
+				c := wgot[id]
+				ft := id.Type.String()
+				switch {
+				case want && c == 0:
+					if got[id] == 0 {
+						continue // missed by the bare query too: reported above
+					}
+					cl := "missed:" + wq.shape + ":" + ft
+					viol[cl] = append(viol[cl], wq.name+": missing "+name(id)+" (the bare query returns it)")
+				case c > 1:
+					cl := "duplicate:" + wq.shape + ":" + ft
+					viol[cl] = append(viol[cl], fmt.Sprintf("%s: %s returned %d times", wq.name, name(id), c))
+				case !want:
+					cl := "invented:" + wq.shape + ":" + ft
+					why := "outside the type / tag restriction"
+					if !expected[id] {
+						why = "Matches is false"
+					}
+					viol[cl] = append(viol[cl], wq.name+": unexpected "+name(id)+" ("+why+")")
+				}
 			}
 		}
 	}
